@@ -112,8 +112,12 @@ pub fn gen_raw(t: &mut Tape, o: &RawOpts) -> raw::Library {
     let mut keys = Vec::new();
     {
         let mut layers = lib.layers.write().unwrap();
+        let share = t.chance(1, 3);
+        let mut prev_num = 0i16;
         for i in 0..nlayers {
-            let num = (i as i16) * 3 + t.draw(3) as i16 + 10 * (i as i16);
+            // distinct Layer objects may share a GDS layer number (e.g. met1 = 68/20 and via = 68/44)
+            let num = if share && i > 0 && t.chance(1, 2) { prev_num } else { (i as i16) * 3 + t.draw(3) as i16 + 10 * (i as i16) };
+            prev_num = num;
             let l = raw::Layer::new(num, format!("met{}", i)).add_pairs(&[(0, Drawing), (1, Pin), (2, Label), (3, Obstruction), (4, Outline)]).unwrap();
             keys.push(layers.add(l));
         }
